@@ -20,14 +20,18 @@ Correspondence:
  (2) some of the user directories are real programs: every file registers itself in init(); they are
      compiled by the real gopherjs with and without --tags and run in node; the run-time set of
      registered files (+ .inc.js markers) must equal the predicted set.
+ (3)-(5) phase 4, see harness/py/c18_p4.py: constraint lines against the real go/build/constraint, package
+     directories given as raw TEXT (placement variants, malformed headers) and the post-load tweaks /
+     virtual (overlay) context against the real Import, each also against the model.
 """
 import json, os, re, shutil, sys
 import common as C
 import c18_gen as G
+import c18_p4 as P4
 
 ID = "C18"
 PROPS_FILE = "Props/C18.v"
-MODEL_TARGETS = ["Corr/C18_Eval.v"]
+MODEL_TARGETS = ["Corr/C18_Eval.v", "Corr/C18_P4_Eval.v"]
 ALLOWED_AXIOMS = []
 RULE = ("package directories of 2-11 entries: names = stem x suffix combination (none, _js, _wasm, _ecmascript, _linux, _js_wasm, "
         "_js_ecmascript, _linux_amd64, _wasm_js, unknown words, dotted stems) x optional _test x extension (.go mostly; .inc.js, .js, .s, "
@@ -36,11 +40,26 @@ RULE = ("package directories of 2-11 entries: names = stem x suffix combination 
         "math_big_pure_go, cgo, unix, go1.1, go1.18..go1.24, user tags, unknown tags, ignore, boringcrypto}; import \"C\" files, package "
         "documentation, external test packages; user tags = random subset of 0-4 tags (incl. tags that collide with OS/arch/release "
         "names); imported as user / std (fake GOROOT) / GOPATH / GOPATH with dotted path / GOROOT dir via local path; a few with $GOOS/"
-        "$GOARCH set. non-trivial = at least one file whose selection depends on a constraint or a name suffix; distinct by full content.")
+        "$GOARCH set. non-trivial = at least one file whose selection depends on a constraint or a name suffix; distinct by full content. "
+        "Phase 4: constraint LINES = 51 fixed corners + //go:build expressions of depth <= 4 printed with random blanks / redundant "
+        "parentheses + legacy lines with random literals (!, !!, empty, a-b) + token soup (malformed); non-trivial = recognised as a "
+        "constraint line. TEXT directories = the structured directories re-rendered with one of 15 header variants per file (plain, "
+        "constraint after the package clause, inside /* */, after a block comment, duplicated //go:build, //+build, wrong keywords, CRLF, "
+        "indentation, blank lines / comments between, malformed expression, leading doc block, no final newline) and 0-2 imports per "
+        "file; plus directories under the import paths runtime, runtime/pprof, sync, syscall/js, sync/atomic, syscall, c18x/runtime, "
+        "runtimex, Sync in the fake GOROOT (real context) and in a virtual file system (real embeddedCtx).")
 TRUSTED = ["model of go/build's matchTag / goodOSArchFile / matchFile / shouldBuild / Import loop and of build/context.go, incjs/file.go "
            "written by hand (coq/Model/C18_Build.v), tied by this correspondence",
-           "go/build's text parsers (constraint syntax, header scanning, import scanning) and directory reading: not modelled, files are "
-           "generated in well-formed shape and handed to the model already parsed",
+           "model of go/build/constraint (lexer, parser, Expr.String, parsePlusBuildExpr, PlusBuildLines) and of go/build's "
+           "parseFileHeader / shouldBuild on text (coq/Model/C18_Constraint.v), of applyPostloadTweaks / updateImports / exclude / the "
+           "file choice of parseOverlayFiles (coq/Model/C18_Text.v) written by hand; tied on every run to the real go/build/constraint, to "
+           "the real NewBuildContext(..).Import and to the real embeddedCtx on generated lines / texts (valid and malformed). Restricted "
+           "to ASCII (go/build accepts any Unicode letter or digit in a tag) and without the size limits of Go 1.23 (1000 operands per "
+           "//go:build line, 100 operators per +build line); error TEXTS are projected to 'error'",
+           "go/build's readGoInfo (package clause, import scanning, //go:embed) and directory reading: not modelled, the package kind, "
+           "the use of cgo and the import list of a file are handed to the model already parsed; overlay_names (which natives files "
+           "augment a package) is modelled but only its inputs (the virtual context's selection) are compared, parseOverlayFiles itself "
+           "needs the embedded natives",
            "harness/py/c18_gen.py (regex extraction of the constants from build/context.go, versionhack.go, version_check.go, "
            "incjs/file.go, README.md, GOROOT/src/go/build/{syslist,build}.go); cross-checked on every run against the dumped real context",
            "harness/go/repo_overlay/compiler/verifharness/c18 + build/export_c18_verif.go",
@@ -96,6 +115,15 @@ def prepare(ctx):
         T = fallback_tables()
     STATE["tables"] = T
     C.write_if_changed(os.path.join(C.COQ, "Gen", "C18_BuildEnv.v"), G.render(T))
+    STATE["post_error"] = None
+    try:
+        post = G.extract_post(C.REPO)
+    except (G.ExtractError, OSError, ValueError) as e:
+        STATE["post_error"] = "%s: %s" % (type(e).__name__, e)
+        ctx.log("POST-TWEAK TABLE EXTRACTION FAILED: %s — falling back to the documented table" % STATE["post_error"])
+        post = G.fallback_post()
+    STATE["post_tweaks"] = post
+    C.write_if_changed(os.path.join(C.COQ, "Gen", "C18_PostTweaks.v"), G.render_post(post))
 
 
 # ---------------------------------------------------------------- generators
@@ -661,6 +689,7 @@ def check_dirs(ctx, cases, out, n_doc, toolchain):
                 ctx.violation("model-mismatch", "import_pkg of the model and the real XContext.Import disagree on a directory "
                               "(correspondence Corr/C18_Eval.mismatches broken)", rep, concrete=False)
     dist["model_mismatches"] = mism
+    STATE["vcases"] = vcases
     ctx.cov["dir_distribution"] = dist
     ctx.cov["traces_validated_against_impl"] = len(vcases)
 
@@ -755,6 +784,17 @@ def correspond(ctx):
     ctx.log("directories done")
     check_programs(ctx, progs, {x["id"]: x for x in out["results"]}, n_doc)
     ctx.log("programs done")
+    # ---- phase 4: the constraint language, headers as text, post-load tweaks
+    if STATE.get("post_error"):
+        ctx.violation("table-extraction-failed", "the post-load tweak table could not be regenerated from applyPostloadTweaks (shape changed): " +
+                      STATE["post_error"], dict(error=STATE["post_error"]), concrete=False)
+    me = sys.modules[__name__]
+    P4.check_lines(me, ctx)
+    ctx.log("constraint lines done")
+    P4.check_text_dirs(me, ctx, n_doc, toolchain)
+    ctx.log("text directories done")
+    P4.check_render(me, ctx, STATE.get("vcases", []) if ctx.quick is False else STATE.get("vcases", [])[:240])
+    ctx.cov["post_tweaks"] = [list(x) for x in STATE["post_tweaks"]]
     ctx.cov["tables"] = {k: v for k, v in STATE["tables"].items() if k not in ("known_os", "known_arch", "unix_os", "other_exts")}
     ctx.cov["documented_go_minor"] = n_doc
     for k, doc in (("known_os", DOC_KNOWN_OS), ("known_arch", DOC_KNOWN_ARCH)):
@@ -770,6 +810,27 @@ def search(ctx, proof_state):
 
 def replay(ctx, data):
     rp = data["replay"]
+    if rp.get("kind") in ("line", "textdir"):
+        root = os.path.join(ctx.work, "replay_root")
+        env = C.goenv()
+        env.update(GOPHERJS_GOROOT=os.path.join(root, "goroot"), GOPATH=os.path.join(root, "gopath"), GO111MODULE="off")
+        env.pop("GOOS", None); env.pop("GOARCH", None); env.pop("GOFLAGS", None)
+        os.makedirs(os.path.join(root, "goroot", "src"), exist_ok=True)
+        os.makedirs(os.path.join(root, "gopath", "src"), exist_ok=True)
+        inp = dict(root=root, cases=[rp["case"]] if rp["kind"] == "textdir" else [], lines=[rp["line"]] if rp["kind"] == "line" else [],
+                   tag_sets=P4.TAGSETS)
+        rc, out, err = C.sh2([os.path.join(C.BIN, "h_c18")], env=env, inp=json.dumps(inp).encode())
+        o = json.loads(out) if rc == 0 else None
+        if rp["kind"] == "line":
+            print("line:", json.dumps(rp["line"]))
+            print("go/build/constraint now:", json.dumps(o["lines"][0]) if o else err)
+        else:
+            print("files:", json.dumps([(f["name"], f["content"]) for f in rp["case"]["files"]], indent=1))
+            print("kind:", rp["case"]["kind"], "path:", rp["case"].get("path"), "tags:", rp["case"]["tags"])
+            print("implementation now:", json.dumps({k: o["results"][0][k] for k in ("err", "go", "test", "xtest", "ignored", "js", "imports", "test_imports", "xtest_imports")}) if o else err)
+        print("recorded:", json.dumps(rp.get("impl")))
+        print("expected:", json.dumps(rp.get("expected")))
+        return 0
     if rp.get("kind") in ("dir", "program") and "case" in rp:
         c = rp["case"]
         root = os.path.join(ctx.work, "replay_root")
@@ -789,16 +850,28 @@ def replay(ctx, data):
     return 0
 
 
-TECHNIQUE = ("Coq proof (induction over constraint expressions / file lists, all tag sets) over an executable model of go/build's selection "
-             "and build/context.go, with the constants regenerated from the sources on every run + differential correspondence with the "
-             "real NewBuildContext(...).Import on generated directories and compiled multi-file programs")
+TECHNIQUE = ("Coq proof (induction over constraint expressions / token lists / strings / file lists, all tag sets) over an executable model of "
+             "go/build's selection, of the go/build/constraint language (lexer, parser, printer, legacy lines, both conversions), of the "
+             "header scanner and of build/context.go incl. post-load tweaks, with the constants and the tweak table regenerated from the "
+             "sources on every run + differential correspondence with the real NewBuildContext(...).Import (real and virtual contexts), the "
+             "real go/build/constraint on generated valid and malformed lines / headers, and compiled multi-file programs")
 LEVEL_TEXT = ("Machine-checked theorems: the tag environment built by NewBuildContext equals the documented one (js/ecmascript, gc, gopherjs, "
               "netgo, purego, math_big_pure_go, go1.1..go1.N and nothing later, user tags; js/wasm for standard-library packages) for "
               "every user tag set and every toolchain >= N; a file is selected iff name rule, constraint, not cgo, extension, not hidden/"
               "test/documentation; tags not mentioned do not matter; .inc.js files are taken regardless of constraints. The constants are "
               "regenerated from build/context.go, versionhack, version_check.go, incjs/file.go and go/build's syslist on every run, so "
               "dropping/adding a default tag or shifting the release-tag truncation breaks env_is_documented. The model is tied to the code "
-              "by running the real Import and the model on the same generated directories.")
-LEVEL_NOTE = ("Proof is about the hand-written model of go/build + build/context.go; go/build's text parsers are not modelled (inputs are "
-              "generated well-formed). One upstream quirk is visible and kept as a refuted clause: the user tag `boringcrypto` does not "
+              "by running the real Import and the model on the same generated directories. Phase 4: the file-name rule equals an "
+              "independent suffix specification for every name (C18_name_rule_eq_spec, and C18_name_rule_iff_text_spec against the wording "
+              "of the go/build documentation); parse(print e) = e for every normal-form expression; a legacy // +build line read through "
+              "constraint.Parse means space=OR / comma=AND / !=NOT for every text and tag assignment (C18_plusbuild_equiv_gobuild) and "
+              "PlusBuildLines preserves meaning; evaluation is monotone exactly in positive tags; go/build's header scanner on a rendered "
+              "header gives the structured semantics (//go:build wins, +build only in a detached leading block, lines AND-ed); "
+              "C18_selected_iff restated on TEXT with the suffix specification; applyPostloadTweaks touches exactly runtime, runtime/pprof, "
+              "sync (pool.go), syscall/js, only removes files, never applies to virtual contexts; updateImports keeps exactly the imports "
+              "of remaining files.")
+LEVEL_NOTE = ("Proof is about the hand-written model of go/build + go/build/constraint + build/context.go; since phase 4 the constraint "
+              "syntax, the header scanner and the post-load tweaks are inside the model (ASCII, no size limits), go/build's readGoInfo is "
+              "not. print-after-parse is not a retraction in go/build/constraint itself (`!(!a)` prints as `!!a`, which is rejected): kept "
+              "as a refuted clause, upstream Go, not /repo. One upstream quirk is visible and kept as a refuted clause: the user tag `boringcrypto` does not "
               "satisfy `//go:build boringcrypto` (go/build aliases the name to goexperiment.boringcrypto). No axioms.")
